@@ -130,3 +130,17 @@ def _v41(repo, mod):
     fn = repo.func(EXE, "TypeTracingTestCaseExecutor.execute")
     s = find_stmt(fn, lambda s: isinstance(s, ast.If) and norm(s.test) == "not result.timeout")
     return insert_before(mod, s, "if result.timeout:\n    return result")
+
+
+@variant("C32", "proxy-exit-stops-unconditionally", "pynguin.instrumentation.tracer", "C32.proxy", "the proxy's __exit__ calls stop() (seed C32-e)")
+def _v50(repo, mod):
+    fn = repo.func("pynguin.instrumentation.tracer", "InstrumentationExecutionTracer.__exit__")
+    c = find_node(fn, lambda n: isinstance(n, ast.Call) and norm(n.func) == "self._tracer.__exit__")
+    return replace_node(mod, c, "self._tracer.stop()")
+
+
+@variant("C32", "namespace-cached-on-the-executor", "pynguin.testcase.execution", "C32.namespace", "one namespace dict shared by all executions (seed C32-f)")
+def _v51(repo, mod):
+    fn = repo.func("pynguin.testcase.execution", "TestCaseExecutor._build_namespace")
+    r = find_stmt(fn, lambda s: isinstance(s, ast.Return))
+    return replace_node(mod, r, "self._namespace = namespace\n        return self._namespace")
